@@ -20,7 +20,7 @@ PROJECTION = {"R": True, "O": ["id", "status", "complete", "inblotter", "betid"]
 
 def gen_opts(rng):
     return {"p_removal": 0.25, "p_suspend": 0.35, "p_inplay": 0.3, "p_close": 0.5, "strategies": rng.choice([1, 2, 2]), "p_act": 0.75,
-            "clients": rng.choice([1, 1, 2])}
+            "clients": rng.choice([1, 2, 2])}
 
 
 class Oracle(simcheck.BaseOracle):
@@ -31,15 +31,21 @@ class Oracle(simcheck.BaseOracle):
         self.client_at = {}   # id(order) -> client it was placed with (a later refused request may overwrite order.client, see C02)
         self.n = 0
 
-    def _note_new(self, market):
+    def _note_new(self, run, market):
         # replacement orders enter the blotter inside the execution of a replace package (no place action): their client is
         # the one they carry when first seen there, before a later (refused) request can overwrite order.client
         if market is not None:
             for o in market.blotter:
-                self.client_at.setdefault(id(o), o.client)
+                if id(o) not in self.client_at:
+                    # (an order that was not placed by the script is a replacement created by the framework (simworld notes which order it replaces): it
+                    # belongs to the client THAT order was placed with, whatever its own client attribute says)
+                    before = run.replaced.get(id(o))
+                    if before is not None and id(before) not in self.client_at:
+                        before = None
+                    self.client_at[id(o)] = self.client_at[id(before)] if before is not None else o.client
 
     def before_action(self, run, sidx, market, action, order, state):
-        self._note_new(market)
+        self._note_new(run, market)
 
     def on_action(self, run, sidx, market, a, result, order):
         if a[0] == "place" and result == "True" and order is not None:
@@ -164,7 +170,7 @@ class Oracle(simcheck.BaseOracle):
                 self.add("has-live-orders", where)
 
     def in_callback(self, run, strategy, market, market_book):
-        self._note_new(market)
+        self._note_new(run, market)
         self.check(run, "in callback")
 
     def after_update(self, run, mb):
